@@ -917,7 +917,7 @@ pub fn cases(tier: Tier) -> Vec<Case> {
     for id in 0..5 {
         out.push(Case::FxCtor { id });
     }
-    let toks = ["tgt", "ldn", "zzz", ",", "|", " ", "é"];
+    let toks = ["tgt", "ldn", "zzz", ",", "|", " ", "é", "\u{0130}", "\u{212A}"];
     let mut frontier: Vec<String> = vec![String::new()];
     out.push(Case::NamedCtor { s: String::new() });
     for _ in 0..tier.pick(4, 5) {
@@ -992,7 +992,7 @@ fn evidence_meta(ctx: &Ctx, ncases: usize) -> Meta {
          space} (+ case-folding oddities), FXPair/FXRate::try_new on every pair with the strings of length <= 3; \
          FXRates::try_new on degenerate quote lists (empty, zero/negative/NaN/inf/subnormal/MAX rates, mixed Dual/Dual2 \
          quotes, duplicate and cyclic pairs, 13 currencies) x bases x orders; NamedCal::try_new on every token string of \
-         length <= 4 (5) over {tgt, ldn, zzz, ',', '|', ' ', e-acute}. Date arithmetic: add_bus_days, lag, add_days (5 \
+         length <= 4 (5) over {tgt, ldn, zzz, ',', '|', ' ', e-acute, U+0130, U+212A} (the last two change UTF-8 length when lower-cased). Date arithmetic: add_bus_days, lag, add_days (5 \
          modifiers), roll for EVERY i8, both flags, 9 start dates (business and non-business) on 18 week masks (every \
          single-day mask, every six-day mask, Sat-Sun, Fri-Sat, Sun+Mon, none) x {no, Sat-Sun, Sun, Mon} settlement \
          masks x holiday patterns; add_months from 16 start dates for EVERY offset landing in 1970-2200 (up to +-2772) x \
